@@ -304,6 +304,7 @@ class Check:
         self.tier = tier
         self.t0 = time.time()
         self.rng = random.Random(SEED * 1000003 + int(hashlib.sha1(pid.encode()).hexdigest()[:8], 16))
+        self.viol_counts = {}
         self.violations = []      # dicts: {key, what, input, expected, observed}
         self.tie_breaks = []      # dicts: {suite, case, model, impl}
         self.obligation_failures = []
@@ -343,7 +344,9 @@ class Check:
                 self.known_hits.setdefault(key, {"what": k.get("what", what), "n": 0, "example": input})
                 self.known_hits[key]["n"] += 1
                 return
-        if len(self.violations) < 50:
+        # keep a few examples per failure class so that one flooding class cannot hide another
+        self.viol_counts[key] = self.viol_counts.get(key, 0) + 1
+        if self.viol_counts[key] <= 5 and len(self.viol_counts) <= 60:
             self.violations.append({"key": key, "what": what, "input": input, "expected": expected,
                                     "observed": observed})
 
@@ -428,6 +431,7 @@ class Check:
             "translator": self.translator,
             "exhaustive": self.exhaustive,
             "known_findings_hit": {k: v["n"] for k, v in self.known_hits.items()},
+            "violation_counts": self.viol_counts,
             "notes": self.notes,
         }
         cov.update(self.extra)
